@@ -503,6 +503,18 @@ func (c *checker) special(d *docCase) {
 	body, crc := S[:len(S)-5], S[len(S)-4:]
 	id := fmt.Sprintf("doc%d", d.idx)
 
+	// a TEXT-mode signature by the named key: it covers the canonicalised text, so with it a payload
+	// that differs from T only in line endings (bytes the key never signed) must not verify
+	if strings.Contains(T, "\n") {
+		if ts, err := textModeSig(d.key, T, d.sigTime); err == nil {
+			crlf := strings.ReplaceAll(T, "\n", "\r\n")
+			add("payload", crlf+sep+ts+tail)
+			i := strings.Index(T, "\n")
+			add("payload", T[:i]+"\r"+T[i:]+sep+ts+tail)
+		} else {
+			r.Inconclusive("cannot build a text-mode signature: " + err.Error())
+		}
+	}
 	// signatures of other documents on this payload, and on a payload nobody signed
 	fresh := T + fmt.Sprintf(`,"verifNonce":"n%d"`, d.idx)
 	add("payload-extend", "payload", fresh+sep+S+tail)
@@ -760,5 +772,5 @@ var allBytes = func() []byte {
 	return b
 }()
 
-var classes = []string{"subst", "insert", "delete", "truncate", "packet-byte", "payload-extend", "transplant-sig", "double-sig",
+var classes = []string{"text-mode-sig", "subst", "insert", "delete", "truncate", "packet-byte", "payload-extend", "transplant-sig", "double-sig",
 	"resign-other-key", "swap-signer", "armor-truncate", "armor-extend", "separator-variant", "sig-json-variant", "unsigned"}
